@@ -231,6 +231,62 @@ class CombinedClient(Harness):
                    comb.request_template.params.get('transparent') == 'true')
 
 
+class GroupOpaque(Harness):
+    """a group layer hides the requested layers below it only if what it draws is opaque: a group with its own sources draws only
+    these (its sub layers are not rendered), a group without own sources draws all its sub layers.  Through the real pruning loop of
+    WMSServer.map: request [base, group]; which of (own source, sub layer 1, sub layer 2) are opaque and whether the group has an
+    own source are solver variables."""
+    modules = ['mapproxy.layer', 'mapproxy.service.wms']
+    functions = ['WMSServer.map', 'WMSGroupLayer.is_opaque', 'WMSGroupLayer.map_layers_for_query', 'WMSGroupLayer.renders_query']
+    merge_bool = False
+
+    @classmethod
+    def build(cls, L, cfg):
+        from props.C10_auth import WMSAuth
+        return WMSAuth.build.__func__(cls, L, cfg)
+
+    @classmethod
+    def inputs(cls, ctx, cfg):
+        return dict(has_own=bool_var('group_has_own_source'), opaque=[bool_var('opaque_%s' % n) for n in ('own', 'sub1', 'sub2')])
+
+    @classmethod
+    def native_inputs(cls, cex):
+        return dict(has_own=bool(cex['has_own']), opaque=[bool(x) for x in cex['opaque']])
+
+    @classmethod
+    def prop(cls, ctx, cfg, has_own, opaque):
+        import types
+        from props.C10_auth import _MapLayer, _Http
+        w, log, merged = ctx['w'], ctx['log'], ctx['merged']
+        del log[:]
+        del merged[:]
+        own_, o = B(has_own), [B(x) for x in opaque]
+
+        def layer(name, opq):
+            src = _MapLayer(name, log)
+            src.is_opaque = lambda q: opq
+            return w.WMSLayer(name, name.upper(), [src])
+        base = layer('base', False)
+        subs = [layer('sub1', o[1]), layer('sub2', o[2])]
+        this = layer('grp', o[0]) if own_ else None
+        grp = w.WMSGroupLayer('grp', 'GRP', this, subs)
+        root = w.WMSGroupLayer(None, 'root', None, [base, grp])
+        s = w.WMSServer(root, {}, ['EPSG:4326'], {'image/png': types.SimpleNamespace(copy=lambda: types.SimpleNamespace(format=types.SimpleNamespace(mime_type='image/png')))})
+        s.check_map_request = lambda req: None
+
+        class P(dict):
+            pass
+        p = P()
+        p.bbox, p.size, p.srs, p.format, p.layers = (0, 0, 10, 10), (100, 100), 'EPSG:4326', 'image/png', ['base', 'grp']
+        p.format_mime_type, p.bgcolor, p.transparent = 'image/png', '#ffffff', False
+        s.map(types.SimpleNamespace(params=p, http=_Http({}), dimensions={}, version='1.1.1'))
+        got = [n for k_, n in log if k_ == 'map']
+        drawn_by_group = ['grp'] if own_ else ['sub1', 'sub2']
+        hides = o[0] if own_ else (o[1] or o[2])
+        want = ([] if hides else ['base']) + drawn_by_group
+        return got == want
+
+
 class _SlowPath(Exception):
     pass
 
@@ -645,13 +701,14 @@ def obligations(tier, seed):
         specs.append(spec(MOD, 'Compatible', 'combine-compatible/%s' % d, cfg=dict(differs=d)))
     specs.append(spec(MOD, 'OpaquePruning', 'opaque-pruning-loop-of-the-wms-service', cfg={}, cost=5))
     specs.append(spec(MOD, 'CombinedClient', 'combined-request-equivalent-to-the-separate-requests', cfg={}, cost=2))
+    specs.append(spec(MOD, 'GroupOpaque', 'group-layer-hides-lower-layers-only-if-what-it-draws-is-opaque', cfg={}, cost=3))
     # known finding: the pruning runs before the authorization callback is asked, so a layer that is opaque by configuration
     # but clipped to a limited_to geometry afterwards has already removed the layers below it
     specs.append(spec(MOD, 'OpaquePruning', 'opaque-pruning-before-authorization-limits', kind='finding', finding_key='C14-opaque-pruning-before-authorization',
                       cfg=dict(authorizer=True), cost=5))
     for c in COMPOSITIONS:
         specs.append(spec(MOD, 'Composition', 'composition/%s-out/%s-over-%s/opacity-%s' % (c['out'], c['modes'][1], c['modes'][0], ('none', 'bottom', 'top')[c['opacity_on'] + 1]), cfg=c, cost=3))
-    twins = dict(OpaqueSound=ocfgs[0], FastPath={}, Composition=COMPOSITIONS[0], CombinedClient={}, Combine=dict(n=3), Compatible=dict(differs='coverage'), SubImageLabel={}, OpaquePruning={})
+    twins = dict(OpaqueSound=ocfgs[0], FastPath={}, Composition=COMPOSITIONS[0], CombinedClient={}, GroupOpaque={}, Combine=dict(n=3), Compatible=dict(differs='coverage'), SubImageLabel={}, OpaquePruning={})
     for h, c in twins.items():
         specs.append(spec(MOD, h, 'twin/' + h, kind='witness', cfg=c))
     for label, h, patches, c in (CANARIES if tier == 'thorough' else CANARIES[:1] + CANARIES[2:7]):
